@@ -55,6 +55,8 @@ func (a alphabet) ops() []op {
 				l = append(l, op{kind: kSetGroup, gid: g, g: gspec{ix, ov}})
 			}
 		}
+		// a negative index without override is an ordinary (non-default) group that sorts first
+		l = append(l, op{kind: kSetGroup, gid: g, g: gspec{-1, false}})
 		l = append(l, op{kind: kDelGroup, gid: g})
 	}
 	return append(l, a.extra...)
